@@ -274,8 +274,9 @@ def read_cgsmiles(pattern):
             # Then we check if the expansion character
             # is next.
             if (eon_a+1 < len(pattern) and pattern[eon_a+1] == "|") or\
-               (eon_a+2 < len(pattern) and pattern[eon_a+2] == "|"):
-                if pattern[eon_a+2] == "|":
+               (eon_a+2 < len(pattern) and pattern[eon_a+2] == "|" and\
+                pattern[eon_a+1] in symbol_to_order):
+                if pattern[eon_a+1] != "|":
                     anchor_order = symbol_to_order[pattern[eon_a+1]]
                     recipe = recipes[prev_node][0]
                     recipes[prev_node][0] = (recipe[0], recipe[1], anchor_order)
